@@ -332,6 +332,50 @@ TIERS = {
 }
 
 
+def _magic_table_child():
+    import xdis.magics as m
+
+    out = {}
+    for mi, v in m.magicint2version.items():
+        try:
+            out[str(int(mi))] = list(m.magic_int2tuple(mi))[:2]
+        except Exception:
+            pass
+    return out
+
+
+def magic_twins(master, produced):
+    """Header fault as a workload: the payload of a host-magic file stored under every *sibling* magic number
+    (another magic that maps to the same Python release, e.g. 3.8.0b4's 3413 vs 3.8.0a1's 3400).  Whatever the
+    loader makes of such a file, every host and both paths must make the same of it."""
+    r = core.fork_call(_magic_table_child, timeout=120)
+    if r.status != "ok":
+        return []
+    table = dict((int(k), tuple(v)) for k, v in r.value.items())
+    out = []
+    tdir = os.path.join(W["rundir"], "twins")
+    os.makedirs(tdir, exist_ok=True)
+    rng = core.SeedStream(core.derive_seed(master, PROP, 0, "twins"))
+    for host in sorted(W["host_magic"]):
+        hm = W["host_magic"][host]
+        ver = table.get(hm)
+        if ver is None:
+            continue
+        sibs = sorted(m for m, v in table.items() if v == ver and m != hm)
+        mine = [b for b in produced if b.magic_int == hm and len(b.data) < 1500 and ".ts." in b.name]
+        if not sibs or not mine:
+            continue
+        for b in rng.sample(mine, min(2, len(mine))):
+            for m in sibs[:8]:
+                data = int(m).to_bytes(2, "little") + b.data[2:]
+                name = "twin%d_%s" % (m, b.name)
+                pth = os.path.join(tdir, "%s-%s" % (host, name))
+                with open(pth, "wb") as f:
+                    f.write(data)
+                out.append(corpus.BaseFile(name, pth, data, "twin:%d:of:%d" % (m, hm)))
+    return out
+
+
 def prepare(master, tier, cfg):
     core.verify_xdis_origin()
     W["rundir"] = os.path.join(core.scratch_dir(), "c07")
@@ -349,6 +393,7 @@ def prepare(master, tier, cfg):
         W["host_magic"][tag] = int(p.stdout.decode().strip().splitlines()[-1])
     produced = corpus.produce_corpus(master, cfg["produce"][0], cfg["produce"][1])
     bases = corpus.repo_corpus() + produced
+    bases += magic_twins(master, produced)
     bases.sort(key=lambda b: (b.origin, b.path))
     # dedupe by content
     seen = set()
@@ -362,8 +407,8 @@ def prepare(master, tier, cfg):
         # keep every repo file and every host-magic file; sample the rest by seed
         rng = core.SeedStream(core.derive_seed(master, PROP, 0, "subset"))
         hm = set(W["host_magic"].values())
-        keep = [b for b in bases if b.origin == "repo" or b.magic_int in hm]
-        rest = [b for b in bases if not (b.origin == "repo" or b.magic_int in hm)]
+        keep = [b for b in bases if b.origin == "repo" or b.magic_int in hm or b.origin.startswith("twin")]
+        rest = [b for b in bases if not (b.origin == "repo" or b.magic_int in hm or b.origin.startswith("twin"))]
         room = max(0, cfg["max_files"] - len(keep))
         keep += rng.sample(rest, min(room, len(rest)))
         if len(keep) > cfg["max_files"]:
